@@ -3,73 +3,79 @@ import Proofs.C19.Main
 namespace PfC19
 open Common C19
 
-/-! ### one clock: nothing is returned `max defaultTTL 0` or more after its TTL ran out -/
+/-! ### one clock: the in-memory deadline is the TTL deadline, or a back-fill made within the TTL plus the default retention -/
 
+/-- on one clock (`V = W + c`): without a back-fill since the store the in-memory deadline IS the
+TTL deadline; after a back-fill at in-memory time `b` the entry was within its TTL then and the
+in-memory deadline is `b + default retention`. -/
 def JBound (cfg : JCfg) (c : Int) (j : JSt) : Prop :=
-  j.V = j.W + c ∧ ∀ k v dV dW, j.spec.get k = .present v dV dW → dW ≤ dV - c + max cfg.dttl 0
+  j.V = j.W + c ∧ ∀ k v dV dW fl, j.spec.get k = .present v dV dW fl →
+    (fl = none → dW = dV - c) ∧ (∀ b, fl = some b → b + c < dV ∧ dW = b + cfg.dttl)
 
-theorem bound_put (cfg : JCfg) (c : Int) (σ : Spec) (k : Key) (x : JEnt)
-    (hx : ∀ v dV dW, x = .present v dV dW → dW ≤ dV - c + max cfg.dttl 0)
-    (h : ∀ k v dV dW, σ.get k = .present v dV dW → dW ≤ dV - c + max cfg.dttl 0) :
-    ∀ k' v dV dW, Spec.get (aPut k x σ) k' = .present v dV dW → dW ≤ dV - c + max cfg.dttl 0 := by
-  intro k' v dV dW hg
-  rw [get_aPut] at hg
-  split at hg
-  · exact hx v dV dW hg
-  · exact h k' v dV dW hg
+def EntOk (cfg : JCfg) (c : Int) (x : JEnt) : Prop :=
+  ∀ v dV dW fl, x = .present v dV dW fl → (fl = none → dW = dV - c) ∧ (∀ b, fl = some b → b + c < dV ∧ dW = b + cfg.dttl)
 
-theorem bound_putAll (cfg : JCfg) (c a b : Int) (hab : b ≤ a - c + max cfg.dttl 0) : ∀ (data : Res) (σ : Spec),
-    (∀ k v dV dW, σ.get k = .present v dV dW → dW ≤ dV - c + max cfg.dttl 0) →
-    ∀ k v dV dW, Spec.get (data.foldl (fun σ kv => aPut kv.1 (.present kv.2 a b) σ) σ) k = .present v dV dW →
-      dW ≤ dV - c + max cfg.dttl 0
-  | [], _, h => h
-  | (k1, v1) :: rest, σ, h => by
-    apply bound_putAll cfg c a b hab rest
-    apply bound_put cfg c σ k1 _ _ h
-    intro v dV dW he
-    simp only [JEnt.present.injEq] at he
-    obtain ⟨_, rfl, rfl⟩ := he
-    exact hab
-
-theorem bound_bump (cfg : JCfg) (c : Int) (j : JSt) (hj : j.V = j.W + c) (σ : Spec) (k : Key)
-    (h : ∀ k v dV dW, σ.get k = .present v dV dW → dW ≤ dV - c + max cfg.dttl 0) :
-    ∀ k' v dV dW, Spec.get (bump cfg j σ k) k' = .present v dV dW → dW ≤ dV - c + max cfg.dttl 0 := by
-  unfold bump
+theorem bound_put (cfg : JCfg) (c : Int) (σ : Spec) (k : Key) (x : JEnt) (hx : EntOk cfg c x)
+    (h : ∀ k, EntOk cfg c (σ.get k)) : ∀ k', EntOk cfg c (Spec.get (aPut k x σ) k') := by
+  intro k'
+  rw [get_aPut]
   split
-  · rename_i val dV0 dW0 hg
-    split
-    · rename_i hc
-      apply bound_put cfg c σ k _ _ h
-      intro v dV dW he
-      simp only [JEnt.present.injEq] at he
-      obtain ⟨_, rfl, rfl⟩ := he
-      have h0 := h k val dV0 dW0 hg
-      have h1 : j.W + cfg.dttl ≤ dV0 - c + max cfg.dttl 0 := by
-        have := Int.le_max_left cfg.dttl 0
-        omega
-      exact Int.max_le.mpr ⟨h0, h1⟩
-    · exact h
-  · exact h
+  · exact hx
+  · exact h k'
 
-theorem bound_bumpAll (cfg : JCfg) (c : Int) (j : JSt) (hj : j.V = j.W + c) : ∀ (res : Res) (σ : Spec),
-    (∀ k v dV dW, σ.get k = .present v dV dW → dW ≤ dV - c + max cfg.dttl 0) →
-    ∀ k v dV dW, Spec.get (res.foldl (fun σ kv => bump cfg j σ kv.1) σ) k = .present v dV dW →
-      dW ≤ dV - c + max cfg.dttl 0
+theorem entOk_store (cfg : JCfg) (c V W : Int) (hVW : V = W + c) (v : Bytes) (ttl : Int) :
+    EntOk cfg c (.present v (V + ttl) (W + ttl) none) := by
+  intro v' dV dW fl he
+  simp only [JEnt.present.injEq] at he
+  obtain ⟨_, rfl, rfl, rfl⟩ := he
+  exact ⟨fun _ => by omega, fun b hb => by simp at hb⟩
+
+theorem bound_putAll (cfg : JCfg) (c : Int) (x : Bytes → JEnt) (hx : ∀ v, EntOk cfg c (x v)) : ∀ (data : Res) (σ : Spec),
+    (∀ k, EntOk cfg c (σ.get k)) →
+    ∀ k, EntOk cfg c (Spec.get (data.foldl (fun σ kv => aPut kv.1 (x kv.2) σ) σ) k)
   | [], _, h => h
-  | (k1, _) :: rest, σ, h => bound_bumpAll cfg c j hj rest _ (bound_bump cfg c j hj σ k1 h)
+  | (k1, v1) :: rest, σ, h => bound_putAll cfg c x hx rest _ (bound_put cfg c σ k1 _ (hx v1) h)
 
-theorem jstep_bound (cfg : JCfg) (c : Int) (j : JSt) (op : Op) (obs : Obs) (hb : JBound cfg c j) (hc : Coupled op) :
-    JBound cfg c (jstep cfg j op obs).1 := by
+theorem bound_refill (cfg : JCfg) (c : Int) (held : List Key) (j : JSt) (hj : j.V = j.W + c) (σ : Spec) (k : Key)
+    (h : ∀ k, EntOk cfg c (σ.get k)) : ∀ k', EntOk cfg c (Spec.get (refill cfg held j σ k) k') := by
+  rw [refill_eq]
+  cases hre : refillEnt cfg held j k with
+  | none => exact h
+  | some e =>
+    apply bound_put cfg c σ k e _ h
+    unfold refillEnt at hre
+    split at hre
+    · rename_i val dV dW fl0 hg
+      split at hre
+      · rename_i hc
+        simp only [Option.some.injEq] at hre
+        subst hre
+        intro v' dV' dW' fl he
+        simp only [JEnt.present.injEq] at he
+        obtain ⟨_, rfl, rfl, rfl⟩ := he
+        refine ⟨fun hn => by simp at hn, ?_⟩
+        intro b hb
+        simp only [Option.some.injEq] at hb
+        subst hb
+        exact ⟨by omega, rfl⟩
+      · simp at hre
+    · simp at hre
+
+theorem bound_refillAll (cfg : JCfg) (c : Int) (held : List Key) (j : JSt) (hj : j.V = j.W + c) : ∀ (res : Res) (σ : Spec),
+    (∀ k, EntOk cfg c (σ.get k)) →
+    ∀ k, EntOk cfg c (Spec.get (res.foldl (fun σ kv => refill cfg held j σ kv.1) σ) k)
+  | [], _, h => h
+  | (k1, _) :: rest, σ, h => bound_refillAll cfg c held j hj rest _ (bound_refill cfg c held j hj σ k1 h)
+
+theorem jstep_bound (cfg : JCfg) (c : Int) (held : List Key) (j : JSt) (op : Op) (obs : Obs) (hb : JBound cfg c j)
+    (hc : Coupled op) : JBound cfg c (jstep cfg held j op obs).1 := by
   obtain ⟨hV, hS⟩ := hb
+  have hS' : ∀ k, EntOk cfg c (j.spec.get k) := fun k v dV dW fl he => hS k v dV dW fl he
+  have mk : ∀ (σ : Spec) V W, V = W + c → (∀ k, EntOk cfg c (σ.get k)) → JBound cfg c ⟨σ, V, W⟩ :=
+    fun σ V W h1 h2 => ⟨h1, fun k v dV dW fl he => h2 k v dV dW fl he⟩
   have hstore : ∀ (k : Key) (v : Bytes) (ttl : Int),
-      JBound cfg c { j with spec := aPut k (.present v (j.V + ttl) (j.W + ttl)) j.spec } := by
-    intro k v ttl
-    refine ⟨hV, bound_put cfg c j.spec k _ ?_ hS⟩
-    intro v' dV dW he
-    simp only [JEnt.present.injEq] at he
-    obtain ⟨_, rfl, rfl⟩ := he
-    have := Int.le_max_right cfg.dttl 0
-    omega
+      JBound cfg c { j with spec := aPut k (.present v (j.V + ttl) (j.W + ttl) none) j.spec } :=
+    fun k v ttl => mk _ _ _ hV (bound_put cfg c j.spec k _ (entOk_store cfg c j.V j.W hV v ttl) hS')
   cases op with
   | set k v ttl => exact hstore k v ttl
   | setAsync k v ttl => exact hstore k v ttl
@@ -82,19 +88,16 @@ theorem jstep_bound (cfg : JCfg) (c : Int) (j : JSt) (op : Op) (obs : Obs) (hb :
     | none => exact ⟨hV, hS⟩
     | got _ _ => exact ⟨hV, hS⟩
   | setMulti data ttl =>
-    refine ⟨hV, ?_⟩
-    simp only [jstep]
-    apply bound_putAll cfg c _ _ _ data j.spec hS
-    have := Int.le_max_right cfg.dttl 0
-    omega
+    exact mk _ _ _ hV (bound_putAll cfg c (fun v => .present v (j.V + ttl) (j.W + ttl) none)
+      (fun v => entOk_store cfg c j.V j.W hV v ttl) data j.spec hS')
   | get keys =>
     cases obs with
-    | got res e => exact ⟨hV, bound_bumpAll cfg c j hV res j.spec hS⟩
+    | got res e => exact mk _ _ _ hV (bound_refillAll cfg c held j hV res j.spec hS')
     | none => exact ⟨hV, hS⟩
     | added _ => exact ⟨hV, hS⟩
   | del k =>
-    refine ⟨hV, bound_put cfg c j.spec k _ ?_ hS⟩
-    intro v dV dW he; simp at he
+    refine mk _ _ _ hV (bound_put cfg c j.spec k _ ?_ hS')
+    intro v dV dW fl he; simp at he
   | advV d => exact absurd hc (by simp [Coupled])
   | advW d => exact absurd hc (by simp [Coupled])
   | advBoth d => exact ⟨by simp only [jstep]; omega, hS⟩
@@ -104,7 +107,7 @@ theorem runTo_bound (cd : Codec) (cfg : JCfg) (c : Int) : ∀ (ops : List (Op ×
     JBound cfg c j → (∀ o ∈ ops, Coupled o.1) → JBound cfg c (runTo cd cfg s j ops).2
   | [], _, _, hb, _ => hb
   | (op, hs) :: rest, _, j, hb, hc =>
-    runTo_bound cd cfg c rest _ _ (jstep_bound cfg c j op _ hb (hc (op, hs) List.mem_cons_self))
+    runTo_bound cd cfg c rest _ _ (jstep_bound cfg c _ j op _ hb (hc (op, hs) List.mem_cons_self))
       (fun o ho => hc o (List.mem_cons_of_mem _ ho))
 
 /-! ### statements about whole runs from a fresh system -/
@@ -117,52 +120,99 @@ include hcd h1 h2 hok
 theorem run_judge : runJudge cd (cfgOf ls) (St.fresh ls v0 w0) (JSt.fresh v0 w0) ops = [] :=
   runJudge_nil cd hcd _ ops _ _ (Rel_init cd ls v0 w0 h1 h2) hok
 
+theorem run_rel : Rel cd (cfgOf ls) (final cd ls v0 w0 ops).1 (final cd ls v0 w0 ops).2 :=
+  Rel_runTo cd hcd _ ops _ _ (Rel_init cd ls v0 w0 h1 h2) hok
+
 theorem run_read (keys : List Key) (hs : List (List Key)) :
     ∀ kv ∈ (final cd ls v0 w0 ops).1.read cd keys hs,
-      kv.1 ∈ keys ∧ ∃ dV dW, (final cd ls v0 w0 ops).2.spec.get kv.1 = .present kv.2 dV dW ∧
-        ((final cd ls v0 w0 ops).2.V < dV ∨ ((cfgOf ls).hasLru = true ∧ (final cd ls v0 w0 ops).2.W < dW)) := by
-  exact read_sound cd hcd _ _ _ (Rel_runTo cd hcd _ ops _ _ (Rel_init cd ls v0 w0 h1 h2) hok) keys hs
+      kv.1 ∈ keys ∧ ∃ dV dW fl, (final cd ls v0 w0 ops).2.spec.get kv.1 = .present kv.2 dV dW fl ∧
+        ((holds (final cd ls v0 w0 ops).1.layers kv.1 = true ∧ (final cd ls v0 w0 ops).2.W < dW) ∨
+          (final cd ls v0 w0 ops).2.V < dV) :=
+  read_sound cd hcd _ _ _ (run_rel cd hcd ls h1 h2 v0 w0 ops hok) keys hs
+
+theorem run_add (k : Key) (v : Bytes) (ttl : Int) :
+    (addL cd (final cd ls v0 w0 ops).1.wall (final cd ls v0 w0 ops).1.layers (final cd ls v0 w0 ops).1.be k v ttl).2.2 =
+      !liveV (final cd ls v0 w0 ops).2 k :=
+  add_sound cd _ _ _ (run_rel cd hcd ls h1 h2 v0 w0 ops hok) k v ttl
 
 theorem run_no_read_after_delete (keys : List Key) (hs : List (List Key)) (k : Key) :
     ((final cd ls v0 w0 ops).2.spec.get k = .deleted ∨ (final cd ls v0 w0 ops).2.spec.get k = .never) →
     ∀ kv ∈ (final cd ls v0 w0 ops).1.read cd keys hs, kv.1 ≠ k := by
   intro hd kv hkv he
-  obtain ⟨_, dV, dW, hg, _⟩ := run_read cd hcd ls h1 h2 v0 w0 ops hok keys hs kv hkv
+  obtain ⟨_, dV, dW, fl, hg, _⟩ := run_read cd hcd ls h1 h2 v0 w0 ops hok keys hs kv hkv
   rw [he] at hg
   rcases hd with h | h <;> rw [h] at hg <;> simp at hg
 
-theorem run_no_read_after_deadline (keys : List Key) (hs : List (List Key)) (k : Key) (v : Bytes) (dV dW : Int) :
-    (final cd ls v0 w0 ops).2.spec.get k = .present v dV dW → dV ≤ (final cd ls v0 w0 ops).2.V → ((cfgOf ls).hasLru = false ∨ dW ≤ (final cd ls v0 w0 ops).2.W) →
+theorem run_no_read_after_deadline (keys : List Key) (hs : List (List Key)) (k : Key) (v : Bytes) (dV dW : Int)
+    (fl : Option Int) :
+    (final cd ls v0 w0 ops).2.spec.get k = .present v dV dW fl → dV ≤ (final cd ls v0 w0 ops).2.V →
+    (holds (final cd ls v0 w0 ops).1.layers k = false ∨ dW ≤ (final cd ls v0 w0 ops).2.W) →
     ∀ kv ∈ (final cd ls v0 w0 ops).1.read cd keys hs, kv.1 ≠ k := by
   intro hp hV hW kv hkv he
-  obtain ⟨_, dV', dW', hg, hor⟩ := run_read cd hcd ls h1 h2 v0 w0 ops hok keys hs kv hkv
+  obtain ⟨_, dV', dW', fl', hg, hor⟩ := run_read cd hcd ls h1 h2 v0 w0 ops hok keys hs kv hkv
   rw [he, hp] at hg
   simp only [JEnt.present.injEq] at hg
-  obtain ⟨_, rfl, rfl⟩ := hg
-  rcases hor with h | ⟨hl, h⟩
-  · omega
+  obtain ⟨_, rfl, rfl, _⟩ := hg
+  rcases hor with ⟨hl, h⟩ | h
   · rcases hW with h' | h'
-    · rw [h'] at hl; simp at hl
+    · rw [he, h'] at hl; simp at hl
     · omega
+  · omega
+
+theorem run_bound (hc : ∀ o ∈ ops, Coupled o.1) : JBound (cfgOf ls) (v0 - w0) (final cd ls v0 w0 ops).2 := by
+  have hinit : JBound (cfgOf ls) (v0 - w0) (JSt.fresh v0 w0) := by
+    refine ⟨by simp only [JSt.fresh]; omega, ?_⟩
+    intro k v dV dW fl h
+    simp [JSt.fresh, Spec.get, aGet] at h
+  exact runTo_bound cd (cfgOf ls) (v0 - w0) ops (St.fresh ls v0 w0) _ hinit hc
+
+/-- one clock, no back-fill since the store: only within the TTL. -/
+theorem run_ttl_without_backfill (hc : ∀ o ∈ ops, Coupled o.1) (keys : List Key) (hs : List (List Key)) :
+    ∀ kv ∈ (final cd ls v0 w0 ops).1.read cd keys hs, ∀ dV dW,
+      (final cd ls v0 w0 ops).2.spec.get kv.1 = .present kv.2 dV dW none → (final cd ls v0 w0 ops).2.V < dV := by
+  intro kv hkv dV dW hp
+  obtain ⟨_, dV', dW', fl', hg, hor⟩ := run_read cd hcd ls h1 h2 v0 w0 ops hok keys hs kv hkv
+  obtain ⟨hV, hS⟩ := run_bound cd hcd ls h1 h2 v0 w0 ops hok hc
+  rw [hp] at hg
+  simp only [JEnt.present.injEq] at hg
+  obtain ⟨_, rfl, rfl, _⟩ := hg
+  have := (hS _ _ _ _ _ hp).1 rfl
+  rcases hor with ⟨_, h⟩ | h
+  · omega
+  · exact h
+
+/-- one clock, general: within the TTL, or within the default retention of a back-fill that was made within the TTL. -/
+theorem run_backfill_retention (hc : ∀ o ∈ ops, Coupled o.1) (keys : List Key) (hs : List (List Key)) :
+    ∀ kv ∈ (final cd ls v0 w0 ops).1.read cd keys hs,
+      ∃ dV dW fl, (final cd ls v0 w0 ops).2.spec.get kv.1 = .present kv.2 dV dW fl ∧
+        ((final cd ls v0 w0 ops).2.V < dV ∨
+          ∃ b, fl = some b ∧ b + (v0 - w0) < dV ∧ (final cd ls v0 w0 ops).2.V < b + (v0 - w0) + (cfgOf ls).dttl) := by
+  intro kv hkv
+  obtain ⟨_, dV, dW, fl, hg, hor⟩ := run_read cd hcd ls h1 h2 v0 w0 ops hok keys hs kv hkv
+  obtain ⟨hV, hS⟩ := run_bound cd hcd ls h1 h2 v0 w0 ops hok hc
+  refine ⟨dV, dW, fl, hg, ?_⟩
+  rcases hor with ⟨_, h⟩ | h
+  · cases fl with
+    | none =>
+      have := (hS _ _ _ _ _ hg).1 rfl
+      left; omega
+    | some b =>
+      obtain ⟨hb1, hb2⟩ := (hS _ _ _ _ _ hg).2 b rfl
+      right; exact ⟨b, rfl, hb1, by omega⟩
+  · exact Or.inl h
 
 theorem run_hard_deadline (hc : ∀ o ∈ ops, Coupled o.1) (keys : List Key) (hs : List (List Key)) :
     ∀ kv ∈ (final cd ls v0 w0 ops).1.read cd keys hs,
-      ∃ dV dW, (final cd ls v0 w0 ops).2.spec.get kv.1 = .present kv.2 dV dW ∧ (final cd ls v0 w0 ops).2.V < dV + max (cfgOf ls).dttl 0 := by
+      ∃ dV dW fl, (final cd ls v0 w0 ops).2.spec.get kv.1 = .present kv.2 dV dW fl ∧
+        (final cd ls v0 w0 ops).2.V < dV + max (cfgOf ls).dttl 0 := by
   intro kv hkv
-  obtain ⟨_, dV, dW, hg, hor⟩ := run_read cd hcd ls h1 h2 v0 w0 ops hok keys hs kv hkv
-  have hinit : JBound (cfgOf ls) (v0 - w0) (JSt.fresh v0 w0) := by
-    refine ⟨by simp only [JSt.fresh]; omega, ?_⟩
-    intro k v dV dW h
-    simp [JSt.fresh, Spec.get, aGet] at h
-  have hb : JBound (cfgOf ls) (v0 - w0) (final cd ls v0 w0 ops).2 :=
-    runTo_bound cd (cfgOf ls) (v0 - w0) ops (St.fresh ls v0 w0) _ hinit hc
-  obtain ⟨hV, hS⟩ := hb
-  refine ⟨dV, dW, hg, ?_⟩
+  obtain ⟨dV, dW, fl, hg, hor⟩ := run_backfill_retention cd hcd ls h1 h2 v0 w0 ops hok hc keys hs kv hkv
+  refine ⟨dV, dW, fl, hg, ?_⟩
   have h0 := Int.le_max_right (cfgOf ls).dttl 0
-  rcases hor with h | ⟨_, h⟩
+  have h1 := Int.le_max_left (cfgOf ls).dttl 0
+  rcases hor with h | ⟨b, _, hb1, hb2⟩
   · omega
-  · have := hS _ _ _ _ hg
-    omega
+  · omega
 end runs
 
 /-! ### corrupt entries -/
@@ -187,5 +237,65 @@ theorem corrupt_backend_entry (cd : Codec) (wall : Int) (be : Backend) (k : Key)
     (hl : be.live k = some g) (hg : cd.dec g = none) :
     getL cd wall [.snap] be [k] hs = ([.snap], [], true) := by
   simp [getL, Backend.getMulti, hl, decodeAll, hg, aPut, aDel]
+
+/-- a key the in-memory layer does not hold and the layers below do not return: nothing changes. -/
+theorem lru_miss_passthrough (cd : Codec) (wall : Int) (sz : Nat) (d : Int) (e : KV) (ls : List Layer) (be : Backend)
+    (k : Key) (hs : List (List Key)) (err : Bool) (hm : aGet k e = none)
+    (h : getL cd wall ls be [k] hs.tail = (ls, [], err)) :
+    getL cd wall (.lru sz d e :: ls) be [k] hs = (.lru sz d e :: ls, [], err) := by
+  simp only [getL, lruScan, hm, List.nil_append, h]
+  simp [orderBy, lruAddAll]
+
+/-- the same underneath an in-memory layer that does not hold the key. -/
+theorem corrupt_backend_entry_under_lru (cd : Codec) (wall : Int) (sz : Nat) (d : Int) (e : KV) (be : Backend) (k : Key)
+    (g : Bytes) (hs : List (List Key)) (hm : aGet k e = none) (hl : be.live k = some g) (hg : cd.dec g = none) :
+    getL cd wall [.lru sz d e, .snap] be [k] hs = ([.lru sz d e, .snap], [], true) :=
+  lru_miss_passthrough cd wall sz d e [.snap] be k hs true hm (corrupt_backend_entry cd wall be k g hs.tail hl hg)
+
+theorem orderBy_singleton (hint : List Key) (x : Key × Bytes) : orderBy hint [x] = [x] := by
+  simp [orderBy]
+
+/-- a store with a positive TTL is readable at once, through any stack. -/
+theorem read_your_write (cd : Codec) (hcd : ∀ b, cd.dec (cd.enc b) = some b) (wall : Int) :
+    ∀ (ls : List Layer) (be : Backend) (k : Key) (v : Bytes) (ttl : Int) (hs : List (List Key)), 0 < ttl →
+    (getL cd wall (setL cd wall ls be k v ttl).1 (setL cd wall ls be k v ttl).2 [k] hs).2.1 = [(k, v)]
+  | [], be, k, v, ttl, hs, h => by
+    have hl : (be.set k v ttl).live k = some v := by
+      have : be.now < be.now + ttl := by omega
+      simp [Backend.live, Backend.set, aGet_aPut_self, this]
+    simp [setL, getL, Backend.getMulti, hl, aPut, aDel]
+  | .ver n :: ls, be, k, v, ttl, hs, h => by
+    have ih := read_your_write cd hcd wall ls be (addVersion n k) v ttl hs.tail h
+    simp only [setL, getL, List.map_cons, List.map_nil, ih, List.foldl_cons, List.foldl_nil]
+    simp [removeVersion_addVersion, aPut, aDel]
+  | .snap :: ls, be, k, v, ttl, hs, h => by
+    have ih := read_your_write cd hcd wall ls be k (cd.enc v) ttl hs.tail h
+    simp only [setL, getL, ih]
+    simp [decodeAll, hcd]
+  | .lru sz d e :: ls, be, k, v, ttl, hs, h => by
+    have ih := read_your_write cd hcd wall ls be k v ttl hs.tail h
+    cases sz with
+    | zero =>
+      simp only [setL, getL, lruAdd, List.take_zero, lruScan, aGet, List.nil_append]
+      simp [ih, orderBy_singleton, aPut, aDel]
+    | succ m =>
+      have hg : aGet k (lruAdd (m + 1) k ⟨v, wall + ttl⟩ e) = some ⟨v, wall + ttl⟩ := by
+        simp [lruAdd, aPut, aGet]
+      simp only [setL, getL, lruScan, hg]
+      rw [if_pos (by omega : wall < wall + ttl)]
+      simp [aPut, aDel]
+
+theorem addVersion_three (k : Key) : addVersion 3 k = 51 :: 64 :: k := by
+  simp [addVersion, versionPrefix, digits, atSign]
+
+theorem removeVersion_three (k : Key) : removeVersion 3 (51 :: 64 :: k) = k := by
+  rw [← addVersion_three, removeVersion_addVersion]
+
+theorem shift33_le (key : UInt64) : (key >>> 33).toNat + 1 ≤ 2 ^ 31 := by
+  have h := key.toNat_lt
+  rw [UInt64.toNat_shiftRight]
+  have : (33 : UInt64).toNat % 64 = 33 := by decide
+  rw [this, Nat.shiftRight_eq_div_pow]
+  omega
 
 end PfC19
